@@ -7,7 +7,7 @@ import (
 	"github.com/enbility/ship-go/zzvrt"
 )
 
-var c11Events = []int{evtMsg, evtClose, evtConnErr, evtWritePayload, evtTimeout}
+var c11Events = []int{evtMsg, evtClose, evtConnErr, evtWritePayload, evtTimeout, evtAbort, evtApprove}
 
 // c11Seq: K events on one live connection (symbolic start state); the end of the connection
 // must be reported to the info provider exactly once, whatever combination of causes coincides.
@@ -51,6 +51,12 @@ func c11Seq(k int) {
 		zzvrt.Assert(n <= 1, "C11.end-reported-twice")
 		if e.w.closed {
 			zzvrt.Assert(n == 1, "C11.end-not-reported")
+		}
+		// a handshake that ended (error, local or remote abort) is a connection end too: once the
+		// delayed close ran, the end must have been reported and the transport released
+		if isTerminal(int(c.smeState)) {
+			zzvrt.Assert(n == 1, "C11.handshake-end-not-reported")
+			zzvrt.Assert(e.w.closed, "C11.handshake-end-leaves-transport-open")
 		}
 		zzvrt.Fact("c11", pre, ev, n)
 	}
